@@ -13,6 +13,7 @@ import (
 	"reflect"
 	"sort"
 	"strings"
+	"sync"
 	"testing"
 	"time"
 	"unsafe"
@@ -255,22 +256,70 @@ func evalAt(c Case, now time.Time, inf *info) evid.Verdict {
 		return parseErr(c, err, file)
 	}
 
-	// --- parsed structure equals the model
-	if int(cc.Version) != c.Version {
-		return evid.Fail("mismatch:version", "Version %d, file is version %d", cc.Version, c.Version)
-	}
-	if fld, d := cmpPrincipal(c.Version, cc.DefaultPrincipal.Realm, cc.DefaultPrincipal.PrincipalName, f.Default); fld != "" {
-		return evid.Fail("mismatch:default-"+fld+":"+ver, "default principal: %s\nfile %x", d, file)
-	}
-	if len(cc.Credentials) != len(f.Creds) {
-		return evid.Fail("mismatch:credential-count:"+ver, "%d credentials parsed, %d written\nfile %x", len(cc.Credentials), len(f.Creds), file)
-	}
-	for i := range f.Creds {
-		if fld, d := cmpCred(c.Version, cc.Credentials[i], &f.Creds[i]); fld != "" {
-			if fld == "flags-byte-order" {
-				return evid.Fail("ticket-flags:file-byte-order-ignored", "credential %d of a version %d file: %s\nfile %x", i, c.Version, d, file)
+	// --- parsed structure equals the model (checked again after later steps: the parsed cache is the caller's)
+	structure := func() evid.Verdict {
+		if int(cc.Version) != c.Version {
+			return evid.Fail("mismatch:version", "Version %d, file is version %d", cc.Version, c.Version)
+		}
+		if fld, d := cmpPrincipal(c.Version, cc.DefaultPrincipal.Realm, cc.DefaultPrincipal.PrincipalName, f.Default); fld != "" {
+			return evid.Fail("mismatch:default-"+fld+":"+ver, "default principal: %s\nfile %x", d, file)
+		}
+		if len(cc.Credentials) != len(f.Creds) {
+			return evid.Fail("mismatch:credential-count:"+ver, "%d credentials parsed, %d written\nfile %x", len(cc.Credentials), len(f.Creds), file)
+		}
+		for i := range f.Creds {
+			if fld, d := cmpCred(c.Version, cc.Credentials[i], &f.Creds[i]); fld != "" {
+				if fld == "flags-byte-order" {
+					return evid.Fail("ticket-flags:file-byte-order-ignored", "credential %d of a version %d file: %s\nfile %x", i, c.Version, d, file)
+				}
+				return evid.Fail("mismatch:"+fld+":"+ver, "credential %d of a version %d file: %s\nfile %x", i, c.Version, d, file)
 			}
-			return evid.Fail("mismatch:"+fld+":"+ver, "credential %d of a version %d file: %s\nfile %x", i, c.Version, d, file)
+		}
+		return evid.Pass()
+	}
+	if v := structure(); !v.OK {
+		return v
+	}
+	if !c.ViaFile {
+		// the caller's buffer is the caller's: it is overwritten, and nothing parsed may change with it
+		for k := range file {
+			file[k] ^= 0xff
+		}
+		v := structure()
+		for k := range file {
+			file[k] ^= 0xff
+		}
+		if !v.OK {
+			v.Sig = "aliases-input:" + v.Sig
+			v.Msg = "after the buffer handed to Unmarshal was overwritten: " + v.Msg
+			return v
+		}
+	}
+	// GetEntries from eight goroutines at once on this one parsed cache: each must get the full list
+	{
+		want := 0
+		for k := range f.Creds {
+			if !f.Creds[k].IsConfig() {
+				want++
+			}
+		}
+		counts := make([]int, 8)
+		var wg sync.WaitGroup
+		start := make(chan struct{})
+		for g := range counts {
+			wg.Add(1)
+			go func(g int) {
+				defer wg.Done()
+				<-start
+				counts[g] = len(cc.GetEntries())
+			}(g)
+		}
+		close(start)
+		wg.Wait()
+		for g, n := range counts {
+			if n != want {
+				return evid.Fail("entries:concurrent-first-use", "GetEntries called by 8 goroutines at once on a freshly parsed cache: goroutine %d got %d credentials, the cache holds %d non-configuration credentials", g, n, want)
+			}
 		}
 	}
 
@@ -339,7 +388,21 @@ func evalAt(c Case, now time.Time, inf *info) evid.Verdict {
 	}
 
 	if c.Client {
-		return evalClient(c, cc, f, now, inf)
+		if v := evalClient(c, cc, f, now, inf); !v.OK {
+			return v
+		}
+		// the client has been built and destroyed: the parsed cache is still the caller's and still says what the file said,
+		// and a second client built from it holds the same tickets and keys
+		if v := structure(); !v.OK {
+			v.Sig = "after-client:" + v.Sig
+			v.Msg = "after a client was built from the parsed cache and destroyed: " + v.Msg
+			return v
+		}
+		if v := evalClient(c, cc, f, now, inf); !v.OK {
+			v.Sig = "second-client:" + v.Sig
+			v.Msg = "second client built from the same parsed cache: " + v.Msg
+			return v
+		}
 	}
 	return evid.Pass()
 }
@@ -526,6 +589,7 @@ func evalClient(c Case, cc *credentials.CCache, f *cf.File, now time.Time, inf *
 		return evid.Fail("client:rejected-wellformed-cache", "NewFromCCache failed on a cache that holds a TGT (credential %d) and only decodable tickets: %v", tgtIdx, err)
 	}
 	inf.l("client:built")
+	defer cl.Destroy() // the caller is done with the client when this function returns
 	if cl.Credentials == nil || cl.Credentials.UserName() != strings.Join(f.Default.Comps, "/") || cl.Credentials.Domain() != f.Default.Realm {
 		return evid.Fail("client:identity", "client identity %q@%q, cache default principal %+v", cl.Credentials.UserName(), cl.Credentials.Domain(), f.Default)
 	}
